@@ -223,3 +223,6 @@ Fixpoint step (pw : lock -> bool) (t : tid) (p : prog) (w : world) : sres :=
                  | r => r
                  end
   end.
+
+(* no writer is ever waiting: the reader-preferring policy, and every sequential run *)
+Definition nopw : lock -> bool := fun _ => false.
